@@ -395,7 +395,7 @@ func (k Keeper) LastSavedValidatorSetStale(ctx context.Context) (bool, error) {
 		k.Logger(ctx).Info("Error getting validator set timestamp before", "error", err)
 		return false, err
 	}
-	twoWeeksAgo := blockTime.Add(-2 * time.Hour * 24 * 7)
+	twoWeeksAgo := sdkCtx.BlockTime().Add(-2 * time.Hour * 24 * 7) // blockTime carries a 1s lookup margin that is not part of the age
 	if valsetTimestamp < uint64(twoWeeksAgo.UnixMilli()) {
 		return true, nil
 	}
